@@ -13,11 +13,6 @@ import (
 // layouts are exercised with single-archive selections only (the all-archives product of
 // slot comparisons is left to the thorough tier).
 func vrtArchiveChoice(na int) int {
-	if vrt.Tier() == 0 {
-		if na > 1 {
-			return vrt.Choose("archive", na)
-		}
-	}
 	return -1 + vrt.Choose("archive", na+1)
 }
 
